@@ -164,8 +164,23 @@ def correspondence(ctx, model_ok):
     return r
 
 
+def bound_sweep_cases(max_n):
+    """bit counters and weighted sums on bare circuits for every n up to max_n (oracle only: documented
+    gate-count bound, basis set, distinct levels, values on sampled assignments) - the bounds are only
+    tight at particular larger n"""
+    out = []
+    for n in range(13, max_n + 1):
+        h = ac.bare_host(n)
+        for basis in sc.ENUMS:
+            out.append({'host': h, 'k0': 1, 'call': ['nbits', basis, False, list(h['inputs'])]})
+            out.append({'host': h, 'k0': 1, 'call': ['weighted', basis, [[i % 3, l] for i, l in enumerate(h['inputs'])]]})
+            out.append({'host': h, 'k0': 1, 'call': ['naive', basis, [[i % 3, l] for i, l in enumerate(h['inputs'])]]})
+        out.append({'host': h, 'k0': 1, 'call': ['easy', False, list(h['inputs'])]})
+    return out
+
+
 def oracle_cases(ctx, corr):
-    return list(getattr(corr, '_cases', []))
+    return list(getattr(corr, '_cases', [])) + bound_sweep_cases(ctx.n(40, 64))
 
 
 def oracle(case):
